@@ -119,6 +119,8 @@ fn fam(name: &'static str) -> Family {
         mixed_case: false,
         blind: false,
         flush_cycles: false,
+        wal_backlog: false,
+        gap_nullable: false,
         reload_shape: false,
         tiny_wal: false,
         max_ops: 12,
@@ -138,6 +140,7 @@ pub fn all() -> Vec<Box<dyn Suite>> {
                 (Family { factors: &[0], max_ops: 8, ..fam("dense-recompact") }, 8),
                 (Family { odd_tables: true, factors: &[4, 999], max_ops: 9, ..fam("odd-table-names") }, 8),
                 (Family { races: true, evicts: false, max_ops: 8, ..fam("ingest-flush-race") }, 10),
+                (Family { wal_backlog: true, factors: &[4, 999], ..fam("wal-backlog-restart") }, 6),
             ],
             thorough_scale: 8,
             witnesses: vec![],
@@ -182,6 +185,7 @@ pub fn all() -> Vec<Box<dyn Suite>> {
                 (Family { cols: Cols::VaryAcross, factors: &[1, 4, 999], ..fam("absent-columns") }, 10),
                 (Family { cols: Cols::VaryWithin, nulls: true, factors: &[999], ..fam("nulls-no-compaction") }, 8),
                 (Family { blind: true, factors: &[0, 1], ..fam("absent-columns-blind") }, 3),
+                (Family { gap_nullable: true, factors: &[2], ..fam("dense-gap-nullable") }, 6),
                 (Family { mixed_case: true, factors: &[1, 4, 999], max_ops: 8, ..fam("mixed-case-subpartitions") }, 5),
                 (Family { odd_tables: true, reload_shape: true, factors: &[4, 999], max_ops: 8, ..fam("odd-table-names") }, 5),
                 (Family { cols: Cols::VaryWithin, nulls: true, factors: &[0, 1, 4], max_ops: 8, ..fam("nulls-compaction") }, 6),
